@@ -478,10 +478,21 @@ def bl_op(rng, g):
     return ["line", rng.randrange(rows), gen_text(rng, rng.randint(0, cols)), rng.choice(ALIGNS), rng.random() < 0.5]
 
 
+NON_ASCII = "\u00b0\u00e9\u00b5\u00f1\u2192\u2588\u20ac\U0001f600"
+
+
+def gen_wild_text(rng, n):
+    """text with non-ASCII code points (1-4 UTF-8 bytes each) now and then"""
+    if rng.random() < 0.7:
+        return gen_text(rng, n)
+    return "".join(rng.choice(NON_ASCII) if rng.random() < 0.3 else rng.choice(TEXT_ALPHA) for _ in range(n))
+
+
 def wild_op(rng, g):
     """anything, including calls outside the property's quantifier (correspondence only)"""
     cols, rows, i2c, bl = g
     k = rng.random()
+    gen_text = gen_wild_text
     anyrow = lambda: rng.choice([-2, -1, 0, 1, rows - 1, rows, rows + 1, 3, 4, 5, 255, 256])
     if k < 0.3:
         col = rng.choice([-3, -1, 0, 1, cols - 1, cols, cols + 1, 41, 255, 256, rng.randint(-2, cols + 2)])
@@ -893,6 +904,8 @@ def run(ctx: C.Ctx):
         g, ops = c["geom"], c["ops"]
         for op in ops:
             dist["op:" + op[0]] += 1
+            if any(isinstance(a, str) and not is_ascii(a) for a in op[1:]):
+                dist["text:non-ascii"] += 1
         dist["kind:" + c["kind"]] += 1
         dist["wiring:" + ("i2c" if g[2] else "parallel")] += 1
         for st in hres[ci]["steps"]:
@@ -980,8 +993,8 @@ def run(ctx: C.Ctx):
         "distribution": dict(dist, sketches=len(builders), cases=len(cases), host_model_calls=n_corr_h, device_model_calls=n_corr_d,
                              oracle_calls=n_oracle, run_time_arg_calls=sum(sum(c["rts"]) for c in cases)),
         "exhaustive": False,
-        "guard": "geometry fits one HD44780 (rows <= 2 or cols <= 20); row/col in range; ASCII text; message(bottom) only with rows >= 2; progress max_value > 0 and width None or >= 1; brightness 0..255 on a parallel LCD with backlight pin; glyph slot 0..7 with 8 rows (outside: F-C17-* findings / calls the property does not quantify over)",
-        "unmodelled": ["non-ASCII text (the firmware prints the UTF-8 bytes of the C string literal, the host stores code points)",
+        "guard": "geometry fits one HD44780 (rows <= 2 or cols <= 20); row/col in range; ASCII text (F-C17-non-ascii); message(bottom) only with rows >= 2; progress max_value > 0 and width None or >= 1; brightness 0..255 on a parallel LCD with backlight pin; glyph slot 0..7 with 8 rows (outside: F-C17-* findings / calls the property does not quantify over)",
+        "unmodelled": ["which glyph the HD44780 character ROM shows for a byte >= 128 (cells are compared as byte values; U+2588 / 0xFF identified)",
                        "binary64 rounding of ratio*width at exact .5 ties of the progress bar (the model rounds the exact rational; such calls are excluded from the host correspondence, not from the oracle)",
                        "float/str()-converted arguments (text given as numbers, float rows/values)", "C int overflow (16-bit AVR)",
                        "LCD.animate/tick (property C18)", "display on/off has no effect on the cell matrix in the mock"],
